@@ -13,7 +13,7 @@ func init() {
 		"(L1–L6) every access to the state shared by concurrent submissions, weight changes and log-list / root refreshes is made under its mutex (safeSubmissionState, Distributor, Proxy, LogListManager, LogGroupInfo, logListRefresherImpl); "+
 		"(R1) at most one request per log: SubmitToLog is called only from the per-log goroutine of a group race and only after request() returned true; request() refuses a log that already has a result entry and records the entry before it can return true; result entries are never removed or reset to nil; "+
 		"(R2) distinct logs: the returned set is built only by ranging over the per-log result map and keeps entries that carry an SCT, labelled with their own key; "+
-		"(R3) success ⇔ every group complete: GetSCTs presets every group to 'not complete' before listening for events, records exactly the reported outcome, and returns completenessError over that map on both exits; completenessError is nil only if no entry is false; a race reports Success only from groupComplete(); groupComplete ⇔ needs ≤ 0; needs start at MinInclusions and are decremented only in setResult on the branch that has an SCT; "+
+		"(R3) success ⇔ every group complete: GetSCTs presets every group to 'not complete' before listening for events, records exactly the reported outcome, and returns completenessError over that map on both exits; completenessError is nil only if no entry is false; a race reports Success only from groupComplete(); groupComplete ⇔ needs ≤ 0; needs start at MinInclusions and are decremented only in setResult on the branch that has an SCT (a failed request is booked against no group), and on every path that books the SCT against a group that may still be waiting the log's result entry ends up carrying that SCT; "+
 		"(R4) who is contacted: the policy input of addSomeChain comes only from usableLl.Compatible(...) (pending logs only from pendingQualifiedLl), Compatible = TemporallyCompatible then RootCompatible, and a certificate / precertificate mismatch with the endpoint is an error; "+
 		"(R9) the log list handed to the policy is, on every path, the result of usableLl.Compatible(leaf, nil | last certificate, recorded roots) computed in this call from the chain parsed from this call's input and handed on with it — never a cached, remembered or unfiltered list; GetSCTs is started only from addSomeChain with the groups of a LogsByGroup call made there; "+
 		"(R5) policy group minima: Chrome = Google-operated ≥ 1, non-Google ≥ 1 plus the lifetime-dependent base group; Apple = base group; lifetime thresholds <15 → 2, ≤27 → 3, ≤39 → 4, else 5; setMinInclusions refuses a group that is too small. "+
@@ -62,6 +62,7 @@ func runC17(r *Run) {
 			}
 		}
 	}
+	var marker ssa.Instruction // the entry request() records: the 'already asked' mark of a log
 	if fn := r.Fn("(*submission.safeSubmissionState).request"); fn != nil {
 		var recorded, cancels ssa.Instruction
 		eachInstr(fn, func(in ssa.Instruction) {
@@ -79,6 +80,7 @@ func runC17(r *Run) {
 		if recorded == nil {
 			r.Fail("request:records", r.FnPos(fn), "request() never records the log in results")
 		} else {
+			marker = recorded
 			// already requested ⇒ false without recording again
 			reach := r.D.Walk(fn, Sigma{"nil?p0.results[p1]": "non"}, nil, nil)
 			r.Valuations++
@@ -102,13 +104,13 @@ func runC17(r *Run) {
 	}
 	// entries are never removed nor reset to nil
 	named := r.P.LookupType("submission.safeSubmissionState")
-	nUpd := 0
+	examined := map[ssa.Instruction]bool{}
 	for _, fn := range r.P.ModFuncs {
 		eachInstr(fn, func(in ssa.Instruction) {
 			switch x := in.(type) {
 			case *ssa.MapUpdate:
 				if c17IsField(x.Map, named, "results") {
-					nUpd++
+					examined[in] = true
 					_, isAlloc := x.Value.(*ssa.Alloc)
 					r.Check("results-entry-non-nil@"+FuncName(fn), isAlloc, r.Where(in), "results[…] ← "+r.D.D(x.Value)+" (entries mark 'already requested' and must stay non-nil)")
 				}
@@ -119,7 +121,12 @@ func runC17(r *Run) {
 			}
 		})
 	}
-	r.Floor("writers of results entries", nUpd, 4)
+	// The enumeration above is over the right set when it contains the writers known by their role:
+	// the mark request() sets and the store(s) of setResult that keep an SCT.  (It used to be a floor
+	// of 4 syntactic sites — 1 + the 3 identical literals of setResult; what that number protected
+	// beyond non-vacuity, "each branch that books the SCT against a group also keeps it", is now
+	// C17.R3 setResult:counted-sct-is-kept.)
+	c17ResultsWriters(r, examined, marker)
 
 	r.Rule("C17.R2")
 	if fn := r.Fn("(*submission.safeSubmissionState).collectSCTs"); fn != nil {
@@ -442,10 +449,7 @@ func c17Completeness(r *Run) {
 		r.ExpectStores(fn, "groupRace:outcome.Name", "&(new:submission.groupState#*.Name)", pGroup+".Name", 3)
 	}
 	if fn := r.Fn("(*submission.safeSubmissionState).groupComplete"); fn != nil {
-		reach := r.D.Walk(fn, Sigma{"p0.groupNeeds[p1]#1": "T"}, nil, nil)
-		r.Valuations++
-		vals := c17BoolResults(r, fn, reach)
-		r.Check("groupComplete:needs<=0", len(vals) == 1 && vals[0] == "(p0.groupNeeds[p1]#0 <= 0)", r.FnPos(fn), fmt.Sprintf("known group ⇒ %v", vals))
+		c17GroupCompleteVerdict(r, fn)
 	}
 	if fn := r.Fn("submission.newSafeSubmissionState"); fn != nil {
 		n := 0
@@ -473,13 +477,8 @@ func c17Completeness(r *Run) {
 		})
 	}
 	if fn := r.Fn("(*submission.safeSubmissionState).setResult"); fn != nil {
-		var decs []ssa.Instruction
-		eachInstr(fn, func(in ssa.Instruction) {
-			if mu, ok := in.(*ssa.MapUpdate); ok && r.D.D(mu.Map) == "p0.groupNeeds" {
-				decs = append(decs, in)
-			}
-		})
-		r.MustGuard(fn, "setResult:no-sct-no-decrement", "nil?p2", "nil", decs, "decrement of group needs")
+		c17NoSctNoDecrement(r, fn)
+		c17CountedIsKept(r, fn)
 	}
 }
 
